@@ -6,7 +6,7 @@ ids = [json.loads(l)['id'] for l in open('/verif/properties.jsonl')]
 CHECKS = {
  'C01': dict(engine='seq', cat='model_checking', tech='explicit-state BFS to fixpoint over the real filesystem, reference-model comparison on every transition',
    text='Every call of the TYPED alphabet is applied to every state reachable over a finite path universe on every backend configuration (BFS to fixpoint, rebuild by replay); outcome, required error kinds and the complete observable snapshot are compared with an abstract-tree model after every transition. Histories of unbounded length are covered wherever the fixpoint is reached.',
-   note='alphabet bound (<=14 paths, <=3 components, listed names and contents), stack height <=3; state key = raw snapshots of the base filesystems', ref='3/C01'),
+   note='alphabet bound (<=14 paths, <=3 components, listed names and contents), stack height <=3; overlay layers are filesystem roots or directories inside other filesystems (Sub); state key = raw snapshots of the base filesystems', ref='3/C01'),
  'C02': dict(engine='seq(pair)', cat='model_checking', tech='product explicit-state BFS: MemoryFS and PhysicalFS in lock-step, each the other\'s oracle',
    text='The same histories are replayed on a fresh MemoryFS and a fresh PhysicalFS; BFS over the joint raw state; after every call the two must agree on Ok/Err, on the not-found and already-exists classes and on the full observable tree and bytes. Write/seek/flush scripts of depth 4 on create handles of both backends are compared with a common cursor model.',
    note='host filesystem tmpfs; names accepted by it; alphabet bound', ref='3/C02'),
@@ -29,7 +29,7 @@ CHECKS = {
    text='The C09 exploration run to fixpoint covers arbitrarily many remove / re-create cycles with type changes; model equality after every step shows removed entries stay absent and re-created ones start fresh; in every state the namespace is probed for .whiteout / *_wo entries.',
    note='alphabet bound; reserved names never generated, only probed', ref='3/C10'),
  'C12': dict(engine='seq', cat='model_checking', tech='explicit-state BFS; every Err of every call and observer checked against the allowed path set and kind classes',
-   text='Every error produced by any call or observer in the C01/C09 explorations must carry the call\'s path, its destination or an ancestor/descendant of them in the caller\'s namespace (never the placeholder, never an underlying path) and the kinds the property fixes.',
+   text='Every error produced by any call or observer in the C01/C09 explorations must carry the call\'s path, its destination or an ancestor of them (a descendant only for calls that walk below their path: walk_dir, remove_dir_all, copy_dir, move_dir) in the caller\'s namespace (never the placeholder, never an underlying path) and the kinds the property fixes.',
    note='altroot prefixes and scratch paths are disjoint from universe names, so a leaked underlying path is recognisable', ref='3/C12'),
 }
 
